@@ -216,6 +216,7 @@ def bundleLine (bm : List Nat) (toks : List String) : List Nat × String :=
     | some i, some lo, some hi, some auth, some ts =>
       if bm.isEmpty then (bm, "err Deleted")
       else if auth = 2 then (bm, "err AccountNotSigner " ++ show_ bm)
+      else if auth = 5 then (bm, "err ConstraintSeeds " ++ show_ bm)   -- the address of another bundle index
       else if i < 256 && bundleBit bm i then (bm, "err AccountAlreadyInitialized " ++ show_ bm)
       else if auth = 4 then (bm, "err ConstraintRaw " ++ show_ bm)   -- the token of another bundle
       else if auth = 1 then (bm, "err MissingOrInvalidDelegate " ++ show_ bm)
